@@ -223,8 +223,14 @@ theorem donePay_wgp (e : Nat) (u : Tid) (h : 6 ≤ clsOf u ∧ clsOf u ≤ 9) :
     (mkSpec p).donePay (enc 11 e) u = spawnPayOf p u := by
   have h1 : clsOf (enc 11 e) = 11 := clsOf_enc (by decide)
   simp [mkSpec, h1, h]
-theorem donePay_rund : (mkSpec p).donePay (enc 12 0) (enc 1 0) = [tk 11 0 0, tk 12 0 0] := by
+theorem donePay_rund (u : Tid) : (mkSpec p).donePay (enc 12 0) u = [] := by
   simp [mkSpec, clsOf, enc]
+
+/-! closes: only the per-run channel `rundone` hands something over -/
+theorem closePay_rundone : (mkSpec p).closePay (enc 14 0) = [tk 11 0 0, tk 12 0 0] := by
+  simp [mkSpec]
+theorem closePay_other (c : Obj) (h : c ≠ enc 14 0) : (mkSpec p).closePay c = [] := by
+  simp [mkSpec, h]
 
 /-! what a thread is given when it is spawned -/
 theorem chanOf_eq (hn : 0 < p.n) (u : Tid) : chanOf p u = idxOf u % p.n := by
